@@ -112,8 +112,11 @@ func init() {
 		// documents with characters that are awkward inside generated source text: a literal line feed, tab, carriage
 		// return, quotes, backslash escapes, %, non-ASCII.  The expectation is regexp.MatchString on the schema's
 		// pattern itself — independent of the model, whose closed pattern family does not contain these.
-		hostilePatterns := []string{"^[^\n]*$", "^key\nvalue$", "a\nb", "\t", "^[^\t]+$", "\r\n", "^\"q\"$", "'", "^a\\.b$", "\\d+%", "^%s$", "^[äöü]+$", "日本", "^\\s*$", "^a\n\tb$", "a`b", "^`+$", "`\r`"}
-		hostileDocs := []string{"", "a", "ab", "a\nb", "a\n\tb", "col1\tcol2", "key\nvalue", "key\n\tvalue", "\r\n", "\"q\"", "it's", "a.b", "axb", "12%", "%s", "äö", "日本語", " \t ", "x\ty\nz", "a`b", "``", "`\r`", "a\r\nb"}
+		hostilePatterns := []string{"^[^\n]*$", "^key\nvalue$", "a\nb", "\t", "^[^\t]+$", "\r\n", "^\"q\"$", "'", "^a\\.b$", "\\d+%", "^%s$", "^[äöü]+$", "日本", "^\\s*$", "^a\n\tb$", "a`b", "^`+$", "`\r`",
+			// an ESCAPED backslash followed by something that would be an escape had the backslash been alone (\u0041, \x41,
+			// \d, \n), and the hexadecimal escapes RE2 does have
+			"^\\\\u0041$", "\\\\x41", "^\\\\d+$", "^\\\\n$", "^\\\\t$", "\\\\\\\\", "^\\x41$", "^\\x{41}$", "^\\x{1F600}$"}
+		hostileDocs := []string{"\\u0041", "A", "\\x{0041}", "\\x41", "\\d", "\\ddd", "\\n", "\\t", "\\\\", "\\", "7", "😀", "", "a", "ab", "a\nb", "a\n\tb", "col1\tcol2", "key\nvalue", "key\n\tvalue", "\r\n", "\"q\"", "it's", "a.b", "axb", "12%", "%s", "äö", "日本語", " \t ", "x\ty\nz", "a`b", "``", "`\r`", "a\r\nb"}
 		var fidelity []*core.PCase
 		for _, pat := range hostilePatterns {
 			for _, pos := range []Position{PosRequired, PosOptional, PosDef} {
@@ -571,6 +574,8 @@ func init() {
 		}
 		ndRes := runCases(c, ndCases)
 		ndFails := verdictOracle(c, ndRes, "enum membership (same-named nodes)", nil)
+		// next to "$defs", a stale legacy "definitions" block with the same names must not change anything
+		pcs = append(pcs, staleDefinitionVariants(pcs, c.N(80, 800))...)
 		res := runCases(c, pcs)
 		fails := ndFails + verdictOracle(c, res, "enum membership", func(r *core.PResult, i int) bool {
 			// null at a non-nullable position is the `null` convention (DESIGN §1.3): neither verdict is claimed
